@@ -334,7 +334,23 @@ def _paths():
         return float(sy[fn.__name__](e, T, r))
 
     K, kgm3, degR, gcm3 = u.K, u.kg / u.m ** 3, u.rankine, u.gram / u.cm ** 3
+
+    def twice(fn, e, T, r, **kw):
+        """the caller's temperature and density objects handed in twice (and to the other function in between): they are left
+        as they are, and the second answer is the one reported"""
+        from chempy import electrolytes as el
+
+        Tq, rq = T * K, r * kgm3
+        fn(e, Tq, rq, **kw)
+        (el.B if fn.__name__ == "A" else el.A)(e, Tq, rq, **kw)
+        out = fin(fn, fn(e, Tq, rq, **kw))
+        if rq.units != kgm3.units or float(rq.magnitude) != float(r) or Tq.units != K.units or float(Tq.magnitude) != float(T):
+            raise ArithmeticError("the caller's quantities were modified: T = %r, rho = %r" % (Tq, rq))
+        return out
+
     return [
+        ("constants+units, same T and rho objects used three times", lambda fn, e, T, r: twice(fn, e, T, r, constants=const, units=u)),
+        ("units, same T and rho objects used three times", lambda fn, e, T, r: twice(fn, e, T, r, units=u)),
         ("numeric", lambda fn, e, T, r: float(fn(e, T, r))),
         ("numeric-math", lambda fn, e, T, r: float(fn(e, T, r, backend=math))),
         ("numeric-sympy-lambdified", sym),
@@ -700,7 +716,7 @@ def _state_P(res, stoich, zs, count=True):
                     ok &= _cmp_prod(res, "extended_activity_product", bn,
                                     lambda: el.extended_activity_product(IS, stoich, zs, a, T, eps, rho, C, backend=be), ref, sc,
                                     dict(base, fn="extended", C=C, backend=bn))
-                for C in (None, 0.1):
+                for C in (None, 0.1, 0, 0.0):  # an explicit zero is a value, not "use the default"
                     ref, sc = _ref_product("davies", IS, stoich, zs, T, eps, rho, C=-0.3 if C is None else C, Aval=Aval)
                     kw = {} if C is None else dict(C=C)
                     ok &= _cmp_prod(res, "davies_activity_product", bn,
